@@ -70,7 +70,11 @@ def step (s : SState) : Op → SState × Out
   | .vertical g1 g2 =>
     let r := getHogMap s g1 g2
     (r.1, .hmap r.2)
-  | .lateral g1 g2 => (s, .lmap (lateral s.H g1 g2))
+  | .lateral g1 g2 =>
+    -- `_get_ancestral_genome_by_mrca_of_genome_set` creates the reference genome when the taxon has none yet
+    match lateral s.H g1 g2 with
+    | .ok m => ({ s with touched := s.touched ++ [m.anc] }, .lmap (.ok m))
+    | .error e => (s, .lmap (.error e))
   | .profileFull =>
     let r := profileFullS s s.H.tree.allTaxa
     ({ r.1 with touched := r.1.touched ++ s.H.tree.allTaxa }, .feats (.ok r.2))
@@ -94,6 +98,12 @@ def step (s : SState) : Op → SState × Out
     match findNode s.H k with
     | some n => (s, .ids (.ok n.leaves))
     | none => (s, .ids (.error .key))
+
+/-- the taxa that carry a genome right after loading: one per <species> element, one per taxon a HOG was placed at -/
+def Ham.initialGenomes (H : Ham) : List Taxon := H.species.map (·.2) ++ H.reg.map (·.1)
+
+/-- the taxa listed by `get_list_extant_genomes` / `get_list_ancestral_genomes` in state `s` (as a set) -/
+def SState.listing (s : SState) : List Taxon := s.H.initialGenomes ++ s.touched
 
 /-- what the same call returns on a freshly loaded analysis -/
 def answer (H : Ham) (op : Op) : Out := (step (SState.init H) op).2
